@@ -54,7 +54,7 @@ def meta(tier):
     return {
         'rule': 'programs: every history over the 11-symbol line alphabet up to the depth bound under 4 configurations '
                 '(plain / predefined data block / non-zero default origin / a GLOBAL zone ending at 13, so that windows reach beyond the addressable memory) that the reference accepts; windows: every start in '
-                '[0, top+2] x every end in {absent} U [start-1, top+2] (top = highest emitted address) x fill values; '
+                '[0, top+2] x every end in {absent} U [start-1, top+2] (top = highest emitted address) x fill values, the number of -v flags (0..3) rotating with the window, every other window written over an existing 25-byte file; '
                 'non-trivial = a window that cuts through a multi-byte line, or covers a gap / muted byte, or lies beyond the code; '
                 'states = distinct (memory map, muted map) pairs',
         'bounds': {'alphabet': [R.render_stmt(s) for s in sigma(0)], 'depth': 2 if q else 3,
@@ -101,7 +101,9 @@ def shard(acc, tier, idx, n):
             for fill in fills:
                 for start in range(0, top + 3):
                     for end in [None] + list(range(max(start - 1, 0), top + 3)):   # -e -1 means "absent" on the command line
-                        case = Case(isa, text, start=start, end=end, fill=fill)
+                        # the image does not depend on how much is logged: -v count rotates with the window
+                        case = Case(isa, text, start=start, end=end, fill=fill, verbose=(start + (0 if end is None else end + 1)) % 4,
+                                    preseed=(start + len(h)) % 2 == 0)      # ... and every other window is written over an existing, longer file
                         out = acc.run(case)
                         acc.transition()
                         spec = expect_spec(ref, start, end, fill)
